@@ -152,6 +152,503 @@ theorem recPieces_enc : ∀ (rs : List V) (ps : List Piece), PIGMPv3MembershipRe
       · intro k; simp [pCopyAdv]
       · exact hns p hp
 
+/-! ### small facts about the helpers of Model/Proto -/
+
+theorem pFitTo_length (k : Nat) (b : Bytes) : (pFitTo k b).length = k := by
+  simp [pFitTo]; omega
+
+theorem pFitTo_exact (k : Nat) (b : Bytes) (h : b.length = k) : pFitTo k b = b := by
+  subst h; simp [pFitTo, zeros]
+
+theorem pIpTo4_of_len4 (ip : Bytes) (h : ip.length = 4) : pIpTo4 ip = ip := by
+  simp [pIpTo4, pIpTo4?, h]
+
+theorem pIpTo4_length_le (ip : Bytes) : (pIpTo4 ip).length ≤ 4 := by
+  unfold pIpTo4 pIpTo4?
+  split
+  · rename_i h; simp at h; simp [h]
+  · split
+    · rename_i h; simp at h; simp [h.1.1.1]
+    · simp
+
+theorem flatten_map_const_length {α} (f : α → Bytes) (k : Nat) (xs : List α) (h : ∀ x ∈ xs, (f x).length = k) :
+    (xs.map f).flatten.length = k * xs.length := by
+  induction xs with
+  | nil => simp
+  | cons x xs ih =>
+    simp only [List.map_cons, List.flatten_cons, List.length_append, List.length_cons]
+    rw [ih (fun y hy => h y (by simp [hy])), h x (by simp), Nat.mul_succ]; omega
+
+theorem map_id_of_forall {α} (f : α → α) (xs : List α) (h : ∀ x ∈ xs, f x = x) : xs.map f = xs := by
+  induction xs with
+  | nil => rfl
+  | cons x xs ih => simp [h x (by simp), ih (fun y hy => h y (by simp [hy]))]
+
+theorem ext_len_toNat (hel : UInt8) :
+    ((8 : UInt16) * ((hel.toUInt64).toUInt16 + (1 : UInt16))).toNat = 8 * (hel.toNat + 1) := by
+  have := hel.toNat_lt
+  simp only [UInt16.toNat_mul, UInt16.toNat_add, UInt64.toNat_toUInt16, UInt8.toNat_toUInt64]
+  show 8 * ((hel.toNat % 2 ^ 16 + 1) % 2 ^ 16) % 2 ^ 16 = _
+  omega
+
+theorem grouprec_len_toNat (ty aux ns : Nat) :
+    (Gen.protocol.IGMPv3GroupRecord.Len { Type_ := n8 ty, AuxDataLen := n8 aux, NumberOfSources := n16 ns }).toNat
+      = (8 + 4 * (n8 aux).toNat + 4 * (n16 ns).toNat) % 65536 := by
+  unfold Gen.protocol.IGMPv3GroupRecord.Len
+  have := (n8 aux).toNat_lt
+  have := (n16 ns).toNat_lt
+  simp only [UInt16.toNat_mul, UInt16.toNat_add, UInt64.toNat_toUInt16, UInt8.toNat_toUInt64]
+  show (((8 + (n8 aux).toNat % 2 ^ 16 * 4 % 2 ^ 16) % 2 ^ 16) + (n16 ns).toNat * 4 % 2 ^ 16) % 2 ^ 16 = _
+  omega
+
+/-- the bytes a group record consists of: fixed part, source addresses (through To4(), each in a 4-byte window),
+    auxiliary words -/
+def groupRecordBody (ty aux ns : Nat) (mc : Bytes) (ips : List Bytes) (auxd : List V) : Bytes :=
+  [n8 ty, n8 aux] ++ be16 (n16 ns) ++ pFitTo 4 (pIpTo4 mc) ++ (ips.map (fun ip => pFitTo 4 (pIpTo4 ip))).flatten
+    ++ (auxd.map (fun d => be32 (n32 d.asNat))).flatten
+
+theorem groupRecordBody_length (ty aux ns : Nat) (mc : Bytes) (ips : List Bytes) (auxd : List V) :
+    (groupRecordBody ty aux ns mc ips auxd).length = 8 + 4 * ips.length + 4 * auxd.length := by
+  unfold groupRecordBody
+  simp only [List.length_append, List.length_cons, List.length_nil, be16_length, pFitTo_length]
+  rw [flatten_map_const_length _ 4 ips (fun x _ => pFitTo_length 4 _),
+    flatten_map_const_length _ 4 auxd (fun x _ => be32_length _)]
+
+theorem pIpList_length : ∀ (xs : List V) (ips : List Bytes), pIpList xs = .ok ips → ips.length = xs.length := by
+  intro xs
+  induction xs with
+  | nil => intro ips h; simp only [pIpList] at h; cases h; rfl
+  | cons x xs ih =>
+    intro ips h
+    simp only [pIpList] at h
+    obtain ⟨b, _, h⟩ := bind_ok_inv _ _ _ h
+    obtain ⟨r, hr, h⟩ := bind_ok_inv _ _ _ h
+    cases h
+    simp [ih r hr]
+
+/-- with 4-byte addresses the body is the plain concatenation -/
+theorem groupRecordBody_v4 (ty aux ns : Nat) (mc : Bytes) (ips : List Bytes) (auxd : List V) (hmc : mc.length = 4)
+    (hips : ∀ ip ∈ ips, ip.length = 4) :
+    groupRecordBody ty aux ns mc ips auxd
+      = [n8 ty, n8 aux] ++ be16 (n16 ns) ++ mc ++ ips.flatten ++ (auxd.map (fun d => be32 (n32 d.asNat))).flatten := by
+  unfold groupRecordBody
+  rw [pIpTo4_of_len4 mc hmc, pFitTo_exact 4 mc hmc,
+    map_id_of_forall (fun ip => pFitTo 4 (pIpTo4 ip)) ips (fun ip hip => by
+      rw [pIpTo4_of_len4 ip (hips ip hip), pFitTo_exact 4 ip (hips ip hip)])]
+
+/-! ### Ethernet, IPv4 -/
+
+theorem PVLAN.bytes_length (v : V) (b : Bytes) (h : PVLAN.bytes v = .ok b) : b.length = 4 := by
+  unfold PVLAN.bytes at h
+  split at h
+  · cases h; rfl
+  · exact absurd h (by simp)
+
+/-- the 20 fixed bytes of an IPv4 header as the encoder writes them (addresses through To4(), each in a 4-byte window) -/
+def ipv4Header (ver : Nat) (ihl : UInt8) (dscp ecn ln ident fl fo ttl pr cs : Nat) (src dst : Bytes) : Bytes :=
+  [PIPv4.packVerIHL (n8 ver) ihl, PIPv4.packDscpEcn (n8 dscp) (n8 ecn)] ++ be16 (n16 ln) ++ be16 (n16 ident)
+    ++ be16 (PIPv4.packFlagsFrag (n16 fl) (n16 fo)) ++ [n8 ttl, n8 pr] ++ be16 (n16 cs)
+    ++ pFitTo 4 (pIpTo4 src) ++ pFitTo 4 (pIpTo4 dst)
+
+theorem ipv4Header_length (ver : Nat) (ihl : UInt8) (dscp ecn ln ident fl fo ttl pr cs : Nat) (src dst : Bytes) :
+    (ipv4Header ver ihl dscp ecn ln ident fl fo ttl pr cs src dst).length = 20 := by
+  simp [ipv4Header, pFitTo_length]
+
+/-- the piece list of the IPv4 encoder up to and including the options -/
+def ipv4Pre (ver : Nat) (ihl : UInt8) (dscp ecn ln ident fl fo ttl pr cs : Nat) (src dst ob : Bytes) : List Piece :=
+  [Piece.put [PIPv4.packVerIHL (n8 ver) ihl], .put [PIPv4.packDscpEcn (n8 dscp) (n8 ecn)], pU16 ln, pU16 ident,
+    .put (be16 (PIPv4.packFlagsFrag (n16 fl) (n16 fo))), pU8 ttl, pU8 pr, pU16 cs,
+    pCopyAdv (pIpTo4 src) 4, pCopyAdv (pIpTo4 dst) 4, pCopy ob]
+
+theorem ipv4_pre (ver : Nat) (ihl : UInt8) (dscp ecn ln ident fl fo ttl pr cs : Nat) (src dst ob : Bytes) :
+    piecesBytes (ipv4Pre ver ihl dscp ecn ln ident fl fo ttl pr cs src dst ob)
+      = ipv4Header ver ihl dscp ecn ln ident fl fo ttl pr cs src dst ++ ob ∧
+    (∀ p ∈ ipv4Pre ver ihl dscp ecn ln ident fl fo ttl pr cs src dst ob, p.Tight) ∧
+      piecesLen (ipv4Pre ver ihl dscp ecn ln ident fl fo ttl pr cs src dst ob) = 20 + ob.length := by
+  refine ⟨?_, ?_, ?_⟩
+  · simp [ipv4Pre, piecesBytes, Piece.bytes, pU8, pU16, pCopyAdv, pCopy, ipv4Header, pFitTo]
+  · intro p hp
+    simp only [ipv4Pre, List.mem_cons, List.not_mem_nil, or_false] at hp
+    rcases hp with rfl | rfl | rfl | rfl | rfl | rfl | rfl | rfl | rfl | rfl | rfl
+    all_goals first | trivial | exact pIpTo4_length_le _
+  · simp [ipv4Pre, piecesLen, Piece.adv, pU8, pU16, pCopyAdv, pCopy]; omega
+
+/-- the condition in the familiar form: 5 ≤ IHL ≤ 15 (it is a 4-bit field) and IHL·4 = 20 + |options| -/
+theorem ipv4_hdrLen_of (ihl n : Nat) (h5 : 5 ≤ ihl) (h15 : ihl ≤ 63) (h : ihl * 4 = 20 + n) :
+    (PIPv4.hdrLen (PIPv4.fixIHL (n8 ihl))).toNat = 20 + n := by
+  have e : (n8 ihl).toNat = ihl := by simp [n8]; omega
+  have hfix : PIPv4.fixIHL (n8 ihl) = n8 ihl := by
+    unfold PIPv4.fixIHL
+    rw [if_neg]
+    rw [UInt8.lt_iff_toNat_lt, e]
+    show ¬ ihl < 5
+    omega
+  rw [hfix]
+  unfold PIPv4.hdrLen
+  rw [UInt8.toNat_toUInt16, UInt8.toNat_mul, e]
+  show ihl * 4 % 2 ^ 8 = _
+  omega
+/-! ### IPv6 -/
+
+/-- the 40 fixed bytes of an IPv6 header as the encoder writes them (each address in a 16-byte window) -/
+def ipv6Header (ver tc fl ln nh hl : Nat) (src dst : Bytes) : Bytes :=
+  [PIPv6.packB0 (n8 ver) (n8 tc), PIPv6.packB1 (n8 tc) (n32 fl)] ++ be16 (PIPv6.packLo (n32 fl)) ++ be16 (n16 ln)
+    ++ [n8 nh, n8 hl] ++ pFitTo 16 src ++ pFitTo 16 dst
+
+theorem ipv6Header_length (ver tc fl ln nh hl : Nat) (src dst : Bytes) :
+    (ipv6Header ver tc fl ln nh hl src dst).length = 40 := by
+  simp [ipv6Header, pFitTo_length]
+
+def ipv6Pre (ver tc fl ln nh hl : Nat) (src dst : Bytes) : List Piece :=
+  [.put [PIPv6.packB0 (n8 ver) (n8 tc)], .put [PIPv6.packB1 (n8 tc) (n32 fl)], .put (be16 (PIPv6.packLo (n32 fl))), pU16 ln,
+    pU8 nh, pU8 hl, pCopyAdv src 16, pCopyAdv dst 16]
+
+theorem ipv6_pre (ver tc fl ln nh hl : Nat) (src dst : Bytes) (hs : src.length ≤ 16) (hd : dst.length ≤ 16) :
+    piecesBytes (ipv6Pre ver tc fl ln nh hl src dst) = ipv6Header ver tc fl ln nh hl src dst ∧
+    (∀ p ∈ ipv6Pre ver tc fl ln nh hl src dst, p.Tight) ∧ piecesLen (ipv6Pre ver tc fl ln nh hl src dst) = 40 := by
+  refine ⟨?_, ?_, ?_⟩
+  · simp [ipv6Pre, piecesBytes, Piece.bytes, pU8, pU16, pCopyAdv, ipv6Header, pFitTo]
+  · intro p hp
+    simp only [ipv6Pre, List.mem_cons, List.not_mem_nil, or_false] at hp
+    rcases hp with rfl | rfl | rfl | rfl | rfl | rfl | rfl | rfl
+    all_goals first | trivial | exact hs | exact hd
+  · simp [ipv6Pre, piecesLen, Piece.adv, pU8, pU16, pCopyAdv]
+
+/-- every entry of the encoder's chain is the encoding of one of the three extension headers of the value -/
+theorem extChain_mem (hbh rt fr : V) : ∀ (f : Nat) (nxt : UInt8) (chain : List Bytes),
+    PIPv6.extChain hbh rt fr f nxt = .ok chain →
+    ∀ c ∈ chain, PHopByHop.marshalM hbh = .ok (c, hbh) ∨ PRouting.marshalM rt = .ok (c, rt) ∨ PFragment.marshalM fr = .ok (c, fr) := by
+  intro f
+  induction f with
+  | zero => intro nxt chain h; exact absurd h (by simp [PIPv6.extChain])
+  | succ f ih =>
+    intro nxt chain h c hc
+    unfold PIPv6.extChain at h
+    split at h
+    · obtain ⟨nx, _, h⟩ := bind_ok_inv _ _ _ h
+      obtain ⟨b, hb, h⟩ := bind_ok_inv _ _ _ h
+      obtain ⟨rest, hrest, h⟩ := bind_ok_inv _ _ _ h
+      cases h
+      simp only [List.mem_cons] at hc
+      rcases hc with rfl | hc
+      · left; simp [PHopByHop.marshalM, hb, same]
+      · exact ih nx rest hrest c hc
+    · split at h
+      · obtain ⟨nx, _, h⟩ := bind_ok_inv _ _ _ h
+        obtain ⟨b, hb, h⟩ := bind_ok_inv _ _ _ h
+        obtain ⟨rest, hrest, h⟩ := bind_ok_inv _ _ _ h
+        cases h
+        simp only [List.mem_cons] at hc
+        rcases hc with rfl | hc
+        · right; left; simp [PRouting.marshalM, hb, same]
+        · exact ih nx rest hrest c hc
+      · split at h
+        · obtain ⟨nx, _, h⟩ := bind_ok_inv _ _ _ h
+          obtain ⟨b, hb, h⟩ := bind_ok_inv _ _ _ h
+          obtain ⟨rest, hrest, h⟩ := bind_ok_inv _ _ _ h
+          cases h
+          simp only [List.mem_cons] at hc
+          rcases hc with rfl | hc
+          · right; right; simp [PFragment.marshalM, hb, same]
+          · exact ih nx rest hrest c hc
+        · cases h; exact absurd hc (by simp)
+
+theorem extChain_succ (hbh rt fr : V) (f : Nat) (nxt : UInt8) :
+    PIPv6.extChain hbh rt fr (f + 1) nxt =
+      if nxt.toNat = Gen.protocol.Type_HBH then
+        (PHopByHop.nextHeader hbh >>= fun nx => PHopByHop.bytes hbh >>= fun b =>
+          PIPv6.extChain hbh rt fr f nx >>= fun rest => pure (b :: rest))
+      else if nxt.toNat = Gen.protocol.Type_Routing then
+        (PRouting.nextHeader rt >>= fun nx => PRouting.bytes rt >>= fun b =>
+          PIPv6.extChain hbh rt fr f nx >>= fun rest => pure (b :: rest))
+      else if nxt.toNat = Gen.protocol.Type_Fragment then
+        (PFragment.nextHeader fr >>= fun nx => PFragment.bytes fr >>= fun b =>
+          PIPv6.extChain hbh rt fr f nx >>= fun rest => pure (b :: rest))
+      else .ok [] := rfl
+
+/-- more fuel does not change the chain -/
+theorem extChain_mono (hbh rt fr : V) : ∀ (f : Nat) (nxt : UInt8) (chain : List Bytes),
+    PIPv6.extChain hbh rt fr f nxt = .ok chain → PIPv6.extChain hbh rt fr (f + 1) nxt = .ok chain := by
+  intro f
+  induction f with
+  | zero => intro nxt chain h; exact absurd h (by simp [PIPv6.extChain])
+  | succ f ih =>
+    intro nxt chain h
+    rw [extChain_succ] at h ⊢
+    split at h
+    · rename_i c1
+      rw [if_pos c1]
+      obtain ⟨nx, hnx, h⟩ := bind_ok_inv _ _ _ h
+      obtain ⟨b, hb, h⟩ := bind_ok_inv _ _ _ h
+      obtain ⟨rest, hrest, h⟩ := bind_ok_inv _ _ _ h
+      simp only [hnx, hb, Res.bind_ok, ih nx rest hrest]
+      exact h
+    · rename_i c1
+      rw [if_neg c1]
+      split at h
+      · rename_i c2
+        rw [if_pos c2]
+        obtain ⟨nx, hnx, h⟩ := bind_ok_inv _ _ _ h
+        obtain ⟨b, hb, h⟩ := bind_ok_inv _ _ _ h
+        obtain ⟨rest, hrest, h⟩ := bind_ok_inv _ _ _ h
+        simp only [hnx, hb, Res.bind_ok, ih nx rest hrest]
+        exact h
+      · rename_i c2
+        rw [if_neg c2]
+        split at h
+        · rename_i c3
+          rw [if_pos c3]
+          obtain ⟨nx, hnx, h⟩ := bind_ok_inv _ _ _ h
+          obtain ⟨b, hb, h⟩ := bind_ok_inv _ _ _ h
+          obtain ⟨rest, hrest, h⟩ := bind_ok_inv _ _ _ h
+          simp only [hnx, hb, Res.bind_ok, ih nx rest hrest]
+          exact h
+        · rename_i c3
+          rw [if_neg c3]
+          exact h
+
+theorem extChain_mono' (hbh rt fr : V) (f : Nat) (nxt : UInt8) (chain : List Bytes)
+    (h : PIPv6.extChain hbh rt fr f nxt = .ok chain) : ∀ k, PIPv6.extChain hbh rt fr (f + k) nxt = .ok chain := by
+  intro k
+  induction k with
+  | zero => exact h
+  | succ k ih => exact extChain_mono hbh rt fr (f + k) nxt chain ih
+
+/-- the chain does not depend on the fuel -/
+theorem extChain_agree (hbh rt fr : V) (f1 f2 : Nat) (nxt : UInt8) (c1 c2 : List Bytes)
+    (h1 : PIPv6.extChain hbh rt fr f1 nxt = .ok c1) (h2 : PIPv6.extChain hbh rt fr f2 nxt = .ok c2) : c1 = c2 := by
+  have a := extChain_mono' hbh rt fr f1 nxt c1 h1 f2
+  have b := extChain_mono' hbh rt fr f2 nxt c2 h2 f1
+  rw [Nat.add_comm] at b
+  rw [a] at b
+  cases b; rfl
+
+theorem optLen_hbh_le (hbh : V) (l : UInt16) (h : PIPv6.optLen PHopByHop.len hbh = .ok l) : l.toNat ≤ 2048 := by
+  unfold PIPv6.optLen at h
+  split at h
+  · cases h; decide
+  · unfold PHopByHop.len at h
+    split at h
+    · cases h
+      unfold Gen.protocol.HopByHopHeader.Len
+      rw [ext_len_toNat]
+      exact (fun x : UInt8 => by have := x.toNat_lt; omega : ∀ x : UInt8, 8 * (x.toNat + 1) ≤ 2048) _
+    · exact absurd h (by simp)
+
+theorem optLen_rt_le (rt : V) (l : UInt16) (h : PIPv6.optLen PRouting.len rt = .ok l) : l.toNat ≤ 2048 := by
+  unfold PIPv6.optLen at h
+  split at h
+  · cases h; decide
+  · unfold PRouting.len at h
+    split at h
+    · cases h
+      unfold Gen.protocol.RoutingHeader.Len
+      rw [ext_len_toNat]
+      exact (fun x : UInt8 => by have := x.toNat_lt; omega : ∀ x : UInt8, 8 * (x.toNat + 1) ≤ 2048) _
+    · exact absurd h (by simp)
+
+theorem optLen_fr_le (fr : V) (l : UInt16) (h : PIPv6.optLen PFragment.len fr = .ok l) : l.toNat ≤ 8 := by
+  unfold PIPv6.optLen at h
+  split at h
+  · cases h; decide
+  · unfold PFragment.len at h
+    split at h
+    · cases h; exact Nat.le_refl 8
+    · exact absurd h (by simp)
+
+/-- a next-header value that names no extension header ends the chain -/
+theorem extChain_plain (hbh rt fr : V) (f : Nat) (nxt : UInt8) (h0 : nxt.toNat ≠ 0) (h43 : nxt.toNat ≠ 43)
+    (h44 : nxt.toNat ≠ 44) : PIPv6.extChain hbh rt fr (f + 1) nxt = .ok [] := by
+  have a0 : ¬ nxt.toNat = Gen.protocol.Type_HBH := h0
+  have a43 : ¬ nxt.toNat = Gen.protocol.Type_Routing := h43
+  have a44 : ¬ nxt.toNat = Gen.protocol.Type_Fragment := h44
+  rw [extChain_succ, if_neg a0, if_neg a43, if_neg a44]
+
+/-- the canonical order hop-by-hop → routing → fragment → payload -/
+theorem extChain_hbh_rt_fr_inv (hbh rt fr : V) (f : Nat) (x : UInt8) (chain : List Bytes)
+    (h : PIPv6.extChain hbh rt fr f 0 = .ok chain)
+    (n1 : PHopByHop.nextHeader hbh = .ok 43) (n2 : PRouting.nextHeader rt = .ok 44) (n3 : PFragment.nextHeader fr = .ok x)
+    (h0 : x.toNat ≠ 0) (h43 : x.toNat ≠ 43) (h44 : x.toNat ≠ 44) :
+    ∃ hb rb fb, PHopByHop.bytes hbh = .ok hb ∧ PRouting.bytes rt = .ok rb ∧ PFragment.bytes fr = .ok fb ∧
+      chain = [hb, rb, fb] := by
+  cases f with
+  | zero => exact absurd h (by simp [PIPv6.extChain])
+  | succ f =>
+  rw [extChain_succ, if_pos (by decide), n1] at h
+  simp only [Res.bind_ok] at h
+  obtain ⟨hb, hhb, h⟩ := bind_ok_inv _ _ _ h
+  obtain ⟨r1, hr1, h⟩ := bind_ok_inv _ _ _ h
+  cases h
+  cases f with
+  | zero => exact absurd hr1 (by simp [PIPv6.extChain])
+  | succ f =>
+  rw [extChain_succ, if_neg (by decide), if_pos (by decide), n2] at hr1
+  simp only [Res.bind_ok] at hr1
+  obtain ⟨rb, hrb, hr1⟩ := bind_ok_inv _ _ _ hr1
+  obtain ⟨r2, hr2, hr1⟩ := bind_ok_inv _ _ _ hr1
+  cases hr1
+  cases f with
+  | zero => exact absurd hr2 (by simp [PIPv6.extChain])
+  | succ f =>
+  rw [extChain_succ, if_neg (by decide), if_neg (by decide), if_pos (by decide), n3] at hr2
+  simp only [Res.bind_ok] at hr2
+  obtain ⟨fb, hfb, hr2⟩ := bind_ok_inv _ _ _ hr2
+  obtain ⟨r3, hr3, hr2⟩ := bind_ok_inv _ _ _ hr2
+  cases hr2
+  cases f with
+  | zero => exact absurd hr3 (by simp [PIPv6.extChain])
+  | succ f =>
+  rw [extChain_plain hbh rt fr f x h0 h43 h44] at hr3
+  cases hr3
+  exact ⟨hb, rb, fb, hhb, hrb, hfb, rfl⟩
+
+theorem optLen_of_nextHeader_hbh (hbh : V) (x : UInt8) (h : PHopByHop.nextHeader hbh = .ok x) :
+    PIPv6.optLen PHopByHop.len hbh = PHopByHop.len hbh := by
+  unfold PHopByHop.nextHeader at h
+  split at h
+  · rfl
+  · exact absurd h (by simp)
+theorem optLen_of_nextHeader_rt (rt : V) (x : UInt8) (h : PRouting.nextHeader rt = .ok x) :
+    PIPv6.optLen PRouting.len rt = PRouting.len rt := by
+  unfold PRouting.nextHeader at h
+  split at h
+  · rfl
+  · exact absurd h (by simp)
+theorem optLen_of_nextHeader_fr (fr : V) (x : UInt8) (h : PFragment.nextHeader fr = .ok x) :
+    PIPv6.optLen PFragment.len fr = PFragment.len fr := by
+  unfold PFragment.nextHeader at h
+  split at h
+  · rfl
+  · exact absurd h (by simp)
+
+/-! ### DHCP, LLDP -/
+
+/-- a function returning plain bytes, applied to every element -/
+def mapR (f : V → R Bytes) : List V → R (List Bytes)
+  | [] => .ok []
+  | x :: xs => do
+    let b ← f x
+    let r ← mapR f xs
+    pure (b :: r)
+
+theorem optBytes_eq : ∀ (os : List V) (ob : Bytes), PDHCP.optBytes os = .ok ob →
+    ∃ obs, mapR PDhcpOpt.marshalOption os = .ok obs ∧ ob = obs.flatten := by
+  intro os
+  induction os with
+  | nil => intro ob h; simp only [PDHCP.optBytes] at h; cases h; exact ⟨[], rfl, rfl⟩
+  | cons o os ih =>
+    intro ob h
+    simp only [PDHCP.optBytes] at h
+    obtain ⟨b, hb, h⟩ := bind_ok_inv _ _ _ h
+    obtain ⟨r, hr, h⟩ := bind_ok_inv _ _ _ h
+    cases h
+    obtain ⟨obs, he, rfl⟩ := ih r hr
+    exact ⟨b :: obs, by simp only [mapR, hb, Res.bind_ok, he, Res.pure_eq], by simp⟩
+
+/-- the fixed 240 bytes of a DHCP message as Read assembles them -/
+def dhcpHeader (op ht hl ho xid secs fl : Nat) (cip yip sip gip hw sname file : Bytes) : Bytes :=
+  [n8 op, n8 ht, n8 hl, n8 ho] ++ be32 (n32 xid) ++ be16 (n16 secs) ++ be16 (n16 fl)
+    ++ cip ++ yip ++ sip ++ gip ++ copyInto (zeros 16) hw ++ pFitTo 64 sname ++ pFitTo 128 file ++ be32 PDHCP.magic
+
+theorem dhcpHeader_length (op ht hl ho xid secs fl : Nat) (cip yip sip gip hw sname file : Bytes) :
+    (dhcpHeader op ht hl ho xid secs fl cip yip sip gip hw sname file).length
+      = 224 + cip.length + yip.length + sip.length + gip.length := by
+  simp [dhcpHeader, pFitTo_length, copyInto_length]; omega
+
+/-- "neither PAD nor END" -/
+def PlainOpts (os : List V) : Prop := ∀ o ∈ os, ∀ t, PDhcpOpt.tag o = .ok t → PDhcpOpt.isPadOrEnd t = false
+
+theorem dhcp_opts_size : ∀ (os : List V) (ls : List UInt16) (obs : List Bytes), PlainOpts os →
+    PDHCP.optLens os = .ok ls → mapR PDhcpOpt.marshalOption os = .ok obs →
+    PDHCP.hasEnd os = .ok false ∧ obs.flatten.length = (ls.map UInt16.toNat).sum := by
+  intro os
+  induction os with
+  | nil =>
+    intro ls obs _ h1 h2
+    simp only [PDHCP.optLens] at h1; simp only [mapR] at h2
+    cases h1; cases h2; exact ⟨rfl, rfl⟩
+  | cons o os ih =>
+    intro ls obs hp h1 h2
+    simp only [PDHCP.optLens] at h1
+    simp only [mapR] at h2
+    obtain ⟨l, hl, h1⟩ := bind_ok_inv _ _ _ h1
+    obtain ⟨ls', hls', h1⟩ := bind_ok_inv _ _ _ h1
+    cases h1
+    obtain ⟨b, hb, h2⟩ := bind_ok_inv _ _ _ h2
+    obtain ⟨obs', hobs', h2⟩ := bind_ok_inv _ _ _ h2
+    cases h2
+    obtain ⟨he, hsum⟩ := ih ls' obs' (fun o' ho' => hp o' (by simp [ho'])) hls' hobs'
+    simp only [PDhcpOpt.marshalOption] at hb
+    obtain ⟨t, ht, hb⟩ := bind_ok_inv _ _ _ hb
+    have hpe := hp o (by simp) t ht
+    rw [hpe] at hb
+    simp only [Bool.false_eq_true, if_false] at hb
+    obtain ⟨d, hd, hb⟩ := bind_ok_inv _ _ _ hb
+    split at hb
+    · exact absurd hb (by simp)
+    · rename_i hd253
+      cases hb
+      simp only [PDhcpOpt.len, hd, Res.bind_ok] at hl
+      cases hl
+      constructor
+      · simp only [PDHCP.hasEnd, ht, Res.bind_ok, he, Res.pure_eq]
+        have : (t.toNat == Gen.protocol.DHCP_OPT_END) = false := by
+          simp only [PDhcpOpt.isPadOrEnd, Bool.or_eq_false_iff] at hpe
+          exact hpe.2
+        rw [this]; rfl
+      · simp only [List.flatten_cons, List.length_append, List.length_cons, List.length_nil, List.map_cons, List.sum_cons,
+          hsum]
+        have : (n16 (d.length + 2)).toNat = d.length + 2 := by
+          simp only [n16, UInt16.toNat_ofNat']
+          omega
+        rw [this]; omega
+
+theorem tlv_readBuf_length (kind : String) (v : V) (b : Bytes) (h : PTLV.readBuf kind v = .ok b) : 3 ≤ b.length := by
+  unfold PTLV.readBuf at h
+  split at h
+  · split at h
+    · cases h; simp; omega
+    · exact absurd h (by simp)
+  · exact absurd h (by simp)
+
+theorem copyInto_take (dst src : Bytes) (h : src.length ≤ dst.length) : (copyInto dst src).take src.length = src := by
+  unfold copyInto
+  rw [List.take_of_length_le h]
+  simp
+
+
+/-- Len() of every element of a list, in order -/
+def lenAll (L : V → R (UInt16 × V)) : List V → R (List UInt16)
+  | [] => .ok []
+  | x :: xs => do
+    let (l, _) ← L x
+    let r ← lenAll L xs
+    pure (l :: r)
+
+/-- the encodings of a list of IPv6 options are, one by one, as long as the options' Len() says -/
+theorem option_encAll_lens : ∀ (os : List V) (obs : List Bytes), encAll POption.marshalM os = .ok obs →
+    ∃ ls, lenAll POption.lenM os = .ok ls ∧ obs.map List.length = ls.map UInt16.toNat ∧
+      obs.flatten.length = (ls.map UInt16.toNat).sum := by
+  intro os
+  induction os with
+  | nil => intro obs h; simp only [encAll] at h; cases h; exact ⟨[], rfl, rfl, rfl⟩
+  | cons o os ih =>
+    intro obs h
+    simp only [encAll] at h
+    obtain ⟨⟨b, o'⟩, hb, h⟩ := bind_ok_inv _ _ _ h
+    obtain ⟨r, hr, h⟩ := bind_ok_inv _ _ _ h
+    cases h
+    obtain ⟨ls, hls, hmap, hsum⟩ := ih r hr
+    simp only [POption.marshalM] at hb
+    obtain ⟨b', hb', hb⟩ := bind_ok_inv _ _ _ hb
+    obtain ⟨e, _⟩ := same_ok _ _ _ _ hb
+    subst e
+    obtain ⟨l, hl, hbl⟩ := POption.bytes_len o b hb'
+    refine ⟨l :: ls, ?_, ?_, ?_⟩
+    · simp only [lenAll, POption.lenM, hl, Res.bind_ok, same, hls, Res.pure_eq]
+    · simp [hmap, hbl]
+    · simp [hsum, hbl]
+
 /-! ### the interface dispatch -/
 
 /-- the `util.Message` dispatch of package protocol, as an elimination rule: whatever holds of every arm's pair of
